@@ -6,7 +6,7 @@
 From RS Require Import Base.Bytes Base.Outcome Lex.Tokens Lex.Literals Interp.Val Interp.Ast.
 From RS Require Import Parse.Verdict Parse.Automaton Parse.Grammar Parse.RefParser.
 From RS Require Import Proofs.C09.Invariant Proofs.C09.Split Proofs.C09.RefSound Proofs.C09.RefComplete
-  Proofs.C09.SimTop Proofs.C09.Viable.
+  Proofs.C09.SimTop Proofs.C09.Viable Proofs.C09.FixTok.
 Open Scope N_scope.
 
 (** (a) for every token sequence and every way of cutting it into lines (get_results between the
@@ -54,34 +54,26 @@ Proof. intros ts ss' H. rewrite (automaton_eq_refparser ts H). apply rd_accepts_
 
 (** (b, second half) the index at which a token list is rejected is the length of its longest viable
     prefix: the tokens before it can be continued to a sentence, the tokens up to and including it
-    cannot -- by any continuation made of well-formed tokens (everything a lexer can produce) *)
+    cannot, by any continuation whatsoever *)
 Theorem C09_refparser_error_index : forall ts i,
   Forall (fun t => tok_ok t = true) ts ->
   (rd_parse ts = VReject i <->
-   (i < length ts)%nat
-   /\ (exists rest ss, Forall (fun t => tok_ok t = true) rest /\ sentence (firstn i ts ++ rest) ss)
-   /\ ~ (exists rest ss, Forall (fun t => tok_ok t = true) rest /\ sentence (firstn (S i) ts ++ rest) ss)).
-Proof. exact reject_index_iff. Qed.
+   (i < length ts)%nat /\ viable_prefix (firstn i ts) /\ ~ viable_prefix (firstn (S i) ts)).
+Proof. exact reject_index_viable. Qed.
 
-(** ... and so is the index at which the automaton raises its parse error *)
+(** ... and so is the index at which the automaton raises its parse error: at the first token that
+    cannot continue any sentence of the grammar *)
 Theorem C09_automaton_error_index : forall ts i,
   Forall (fun t => tok_ok t = true) ts ->
   (run_tokens ts = VReject i <->
-   (i < length ts)%nat
-   /\ (exists rest ss, Forall (fun t => tok_ok t = true) rest /\ sentence (firstn i ts ++ rest) ss)
-   /\ ~ (exists rest ss, Forall (fun t => tok_ok t = true) rest /\ sentence (firstn (S i) ts ++ rest) ss)).
-Proof. intros ts i H. rewrite (automaton_eq_refparser ts H). apply reject_index_iff, H. Qed.
+   (i < length ts)%nat /\ viable_prefix (firstn i ts) /\ ~ viable_prefix (firstn (S i) ts)).
+Proof. intros ts i H. rewrite (automaton_eq_refparser ts H). apply reject_index_viable, H. Qed.
 
 (** an unfinished program can always be finished; it is not itself a sentence *)
 Theorem C09_unfinished_is_viable : forall ts,
   Forall (fun t => tok_ok t = true) ts -> run_tokens ts = VMore ->
   viable_prefix ts /\ ~ (exists ss, sentence ts ss).
 Proof. intros ts H R. rewrite (automaton_eq_refparser ts H) in R. apply more_viable; assumption. Qed.
-
-(** not proved: the same non-continuability over continuations that contain malformed tokens (an
-    identifier token without text, which the grammar relation does not exclude and no lexer produces) *)
-Definition C09_error_index_unrestricted_full : Prop := forall ts i,
-  Forall (fun t => tok_ok t = true) ts -> rd_parse ts = VReject i -> ~ viable_prefix (firstn (S i) ts).
 
 (** non-vacuity: a concrete sentence is accepted by both parsers with the same tree, and a
     non-sentence (name: directly before ')') is rejected at the ')' *)
